@@ -1357,6 +1357,27 @@ func (h *hmapType) checkSort() {
 			}
 		}
 	}
+	// Sort collects the entries, clears the structure and re-inserts key/value from the collected
+	// entries: clear() must leave the entries' key and value untouched (it may drop links)
+	if cfi := h.p.Method(rel, h.t.Obj().Name(), "clear"); cfi != nil && cfi.Decl.Body != nil {
+		ast.Inspect(cfi.Decl.Body, func(n ast.Node) bool {
+			as, ok := n.(*ast.AssignStmt)
+			if !ok {
+				return true
+			}
+			for _, l := range as.Lhs {
+				if sel, ok := ast.Unparen(l).(*ast.SelectorExpr); ok {
+					switch sel.Sel.Name {
+					case "value", "Value", "key", "Key":
+						if _, isRecv := ast.Unparen(sel.X).(*ast.Ident); isRecv {
+							probs = append(probs, "clear() overwrites "+stripSpaces(types.ExprString(l))+" of the entries it drops, but Sort re-inserts from those entries after clear(): every key comes back with a wiped "+strings.ToLower(sel.Sel.Name))
+						}
+					}
+				}
+			}
+			return true
+		})
+	}
 	if full == 0 {
 		h.r.Undec(h.pre+".sort", c, pos, "no path with sort + re-insert")
 	} else if len(probs) > 0 {
